@@ -782,6 +782,13 @@ def run(res, tier, seed, replay=None):
                 n, fnd = run_stream(b["harness"], sessions, exact_env)
                 report(sp["name"], fnd, True)
                 per.append({"config": sp["name"], "mode": "asan+ubsan exact", "lines": n, "sessions": len(sessions), "findings": len(fnd)})
+                # "any buffer alignment": the same stream with every caller buffer starting 1, 3 or 7 bytes after a 16-aligned address
+                # (UBSan -fsanitize=alignment reports a wide load/store through a misaligned pointer; the block end stays exact)
+                if sp["name"] in ("default-san", "c32-san") or tier == "thorough":
+                    for k in ((1, 7) if tier == "quick" else (1, 3, 7)):
+                        n, fnd = run_stream(b["harness"], sessions, dict(exact_env, VERIF_MISALIGN=str(k)))
+                        report(sp["name"] + "+misalign%d" % k, fnd, True)
+                        per.append({"config": sp["name"], "mode": "asan+ubsan exact, buffers misaligned by %d" % k, "lines": n, "sessions": len(sessions), "findings": len(fnd)})
         for sp in masked:
             b = builds.get(sp["name"])
             if not b or "harness" not in b:
